@@ -55,7 +55,7 @@ TNext == \/ Ev("Tick") /\ Tick(J.ag) /\ DataIdle /\ PostOK(J)
          \/ Ev("Close") /\ Close(J.ag) /\ DataIdle /\ PostOK(J)
          \/ Ev("SetRemoteCreds") /\ SetRemoteCreds(J.ag) /\ DataIdle /\ PostOK(J)
          \/ Ev("AddRemote") /\ AddRemote(J.ag, [addr |-> J.c.addr, typ |-> J.c.typ, prio |-> J.c.prio]) /\ DataIdle /\ PostOK(J)
-         \/ Ev("Write") /\ (IF J.stun THEN WriteStun(J.ag) ELSE Write(J.ag, J.pid)) /\ PostOK(J)
+         \/ Ev("Write") /\ (IF J.stun \/ (J.cookie /\ J.err # "") THEN WriteStun(J.ag) ELSE Write(J.ag, J.pid)) /\ PostOK(J)
          \/ Ev("DeliverData") /\ DeliverData(ToData(J.d)) /\ PostOK(J)
          \/ Ev("VanishData") /\ VanishData(ToData(J.d)) /\ PostOK(J)
          \/ Ev("DropData") /\ DropData(ToData(J.d)) /\ PostOK(J)
